@@ -10,6 +10,5 @@ for _p in sorted(glob.glob(os.path.join(_here, "props", "C*.json"))):
 
 # properties not (yet) claimed, with the reason that goes into MANIFEST.not_applicable
 NOT_CLAIMED = {
-    "C03": "check being built (abstract protocol model + end-to-end trace validation); the technique applies",
     "C16": "check being built (choreography model, regenerated channel facts, end-to-end stop runs); the technique applies",
 }
